@@ -9,8 +9,9 @@ Ltac Zify.zify_post_hook ::= Z.div_mod_to_equations.
 Section Simple.
 Variable ffmt : Z -> Z -> bytes.
 Variable tz : Z -> Z.
+Variable efmt : Z -> bytes.
 Variable jsonp : bytes -> res bytes.
-Notation cell_ok := (cell_ok ffmt tz jsonp).
+Notation cell_ok := (cell_ok ffmt tz efmt jsonp).
 
 Lemma digs_Z_nonneg z : 0 <= z -> digs_Z z = digs z.
 Proof. intros H. unfold digs_Z. destruct (z <? 0) eqn:E; [apply Z.ltb_lt in E; lia | reflexivity]. Qed.
